@@ -68,6 +68,17 @@ CLAIMED = {
          'time_as_observations / time_as_channels / bin_time / averaging are modelled and compared but have no separate theorem; '
          'DataFrame round trip, get_measurements_tensor and nested_odd_even_split are checked by the Python oracle only.',
          'DESIGN.md section 7, C11'),
+ 'C03': ('Coq proofs over R of symmetry, range, self-similarity and permutation invariance of the measure models '
+         '(cosine, Pearson, Spearman, rho-a, tau-a, whitened via any PSD form) + in-Coq correspondence of compare() for all methods',
+         'Theorems: cosine symmetric, in [-1,1] (Cauchy-Schwarz), 1 on the diagonal; invariance of cosine/corr/spearman/rho-a/tau-a '
+         'under any simultaneous permutation of the entries of both vectors (ranks are equivariant, tau-a is a symmetric pair sum); '
+         'tau-a symmetric and its concordance count bounded by the number of pairs; for every symmetric PSD bilinear form the whitened '
+         'similarity is symmetric, 1 on the diagonal and within [-1,1], and the model\'s whitened measure is that form with V^-1. '
+         'Correspondence: compare() for all nine method names, sigma_k None/vector/SPD matrix, RDMs/ndarray inputs, evaluated against '
+         'the exact Q model (V built from sigma_k, inverted by validated Gauss-Jordan) inside Coq.',
+         'Bures similarity/metric are not modelled (LAPACK): only metamorphic supporting tests; positive-semidefiniteness of V^-1 is a '
+         'hypothesis of the whitened-range theorem; tau-b / rho-a tie semantics are established by correspondence; CG tolerance 1e-3.',
+         'DESIGN.md section 7, C03'),
 }
 NA_REASON = 'check not built yet in this round (work in progress; see DESIGN.md section 7)'
 
